@@ -36,6 +36,39 @@ func fam(i int) func(int64) (*GenesisSpec, int) {
 	return func(seed int64) (*GenesisSpec, int) { return Family(i, seed) }
 }
 
+// windowGrows: validator `who` is reported absent in the blocks `absentAt`; meanwhile governance enlarges the signing window
+// from 4 (at least 2 signed) to 30 (at least 28 signed), in force from block 14.  The last absence is judged with the new
+// window, which reaches back over all the earlier ones.
+func windowGrows(s *Script, who int, absentAt []int64) {
+	abs := map[int64]bool{}
+	for _, h := range absentAt {
+		abs[h] = true
+	}
+	var prop []string
+	for h := int64(1); h <= 20; h++ {
+		if abs[h] {
+			s.Begin(Hdr{Absent: []int{who}})
+		} else {
+			s.Begin(allHdr)
+		}
+		switch h {
+		case 6:
+			s.expect(OK(s.Propose(1, 8, 2, 13, `{"signedBlocksWindow":"30","minSignedBlocks":"28"}`)), "proposal enlarging the window")
+		case 8:
+			prop = s.Proposals()
+			for _, v := range []int{1, 2, 3, 4} {
+				if v != who && len(prop) == 1 {
+					s.Vote(v, prop[0], 0)
+				}
+			}
+		}
+		s.End()
+		if s.R.Dead != "" {
+			return
+		}
+	}
+}
+
 // expect records that a set-up step of a scenario did not behave as intended.
 func (s *Script) expect(cond bool, what string) {
 	if !cond {
@@ -537,6 +570,8 @@ var Scenarios = []Directed{
 		s.End()
 		s.Blocks(3, allHdr)
 	}},
+	{"window_grows_one_stale", []string{"C14"}, fam(3), func(s *Script) { windowGrows(s, 3, []int64{5, 11, 15}) }},
+	{"window_grows_two_stale", []string{"C14"}, fam(3), func(s *Script) { windowGrows(s, 2, []int64{4, 5, 11, 15}) }},
 	{"restart_after_first_block", []string{"C10", "C07"}, fam(0), func(s *Script) {
 		// the very first block already changes the staking ledger (a new validator, a delegation), and the process is
 		// restarted right after it: version 1 is the only committed version, there is no version before it
